@@ -746,6 +746,30 @@ def brange(n):
     return (None if a == "-" else int(a), int(b))
 
 
+def dress_media(rng, text, avoid=()):
+    """put other, valid segment tags in front of some EXTINF lines of a media playlist text: the subject of a property has to
+    hold for every segment whatever else the segment carries (a check that is skipped under some unrelated condition, e.g. a
+    `continue` in a shared validation loop, only shows on such segments). `avoid`: kinds that would change the expectation."""
+    kinds = [k for k in ("range", "disc", "key", "keyiv", "map", "daterange", "pdt", "title", "unknown", "frac") if k not in avoid]
+    out = []
+    i = 0
+    for ln in text.split("\n"):
+        if ln.startswith("#EXTINF:") and kinds and rng.random() < 0.6:
+            i += 1
+            k = rng.choice(kinds)
+            if k == "range": out.append("#EXT-X-BYTERANGE:%d@%d" % (rng.randint(1, 1000), rng.randint(0, 1000)))
+            elif k == "disc": out.append("#EXT-X-DISCONTINUITY")
+            elif k == "key": out.append('#EXT-X-KEY:METHOD=AES-128,URI="dk%d"' % (i % 3))
+            elif k == "keyiv": out.append('#EXT-X-KEY:METHOD=SAMPLE-AES,URI="dk",KEYFORMAT="f9",IV=0x%032x' % i)
+            elif k == "map": out.append('#EXT-X-MAP:URI="dinit%d"' % i)
+            elif k == "daterange": out.append('#EXT-X-DATERANGE:ID="dd%d",START-DATE="2010-02-19T14:54:23.031+08:00"' % i)
+            elif k == "pdt": out.append("#EXT-X-PROGRAM-DATE-TIME:2010-02-19T14:54:23.031+08:00")
+            elif k == "unknown": out.append("#EXT-X-DRESS:%d" % i)
+            elif k == "title": ln = ln + "t" if ln.endswith(",") else ln
+        out.append(ln)
+    return "\n".join(out)
+
+
 # ------------------------------------------------------------------------------------------
 # C06
 
@@ -815,6 +839,8 @@ def c06_build(ctx):
         n = rng.randint(maxlen + 1, 60)
         seq = tuple(rng.choice(C06_ALPHA) if rng.random() < 0.7 else ("S",) for _ in range(n)) + (("S",),)
         cases.append(mk("media", c06_render(seq), group="random-long", meta={"seq": seq}))
+        if rng.random() < 0.4:
+            cases.append(mk("media", dress_media(rng, c06_render(seq), avoid=("key", "keyiv", "map")), group="random-long-dressed", meta={"seq": seq}))
     for _ in range(ctx.n(500, 5000)):
         cases.append(mk("media", G.gen_media(rng, key_weight=0.6, features=ctx.features)[0], group="generated"))
     return cases
@@ -983,6 +1009,9 @@ def c07_build(ctx):
     for _ in range(ctx.n(6000, 120000)):
         text, exp, base = c07_case(rng)
         cases.append(mk("rt_media", text, group="numbering+iv", meta={"exp": exp, "base": base}))
+    for _ in range(ctx.n(2000, 40000)):
+        text, exp, base = c07_case(rng)
+        cases.append(mk("rt_media", dress_media(rng, text, avoid=("key", "keyiv")), group="numbering+iv-dressed", meta={"exp": exp, "base": base}))
     for t in corpus_texts():
         if "#EXTINF" in t:
             cases.append(mk("rt_media", t, group="corpus"))
@@ -1105,6 +1134,8 @@ def c08_build(ctx):
                 mp = "%d@%d" % (pick(), pick()) if rng.random() < 0.7 else "%d" % pick()
             segs.append((rng.choice(uris), rng.choice("NEEII"), pick(), pick(), mp))
         cases.append(mk("rt_media", c08_render(segs), group="random-values", meta={"segs": segs}))
+        if rng.random() < 0.5:
+            cases.append(mk("rt_media", dress_media(rng, c08_render(segs), avoid=("range", "map")), group="random-values-dressed", meta={"segs": segs}))
     for t in corpus_texts():
         if "BYTERANGE" in t:
             cases.append(mk("rt_media", t, group="corpus"))
@@ -1231,6 +1262,41 @@ def c09_build(ctx):
         durs[rng.randrange(len(durs))] = bound * NS + rng.choice(deltas[:11])
         text = "#EXTM3U\n#EXT-X-TARGETDURATION:%d\n" % t + "".join("#EXTINF:%s,\ns%d.ts\n" % (dec9(max(0, d)), i) for i, d in enumerate(durs))
         cases.append(mk("media_builder", text, "-" if e is None else str(e * NS), group="text-multi", meta={"durs": [max(0, d) for d in durs], "t": t * NS, "e": None if e is None else e * NS}))
+    # the rule holds for EVERY segment, whatever other tags it carries: the boundary segment dressed with each kind of
+    # segment tag (explicit and continuing byte ranges, discontinuity, key, map, date range, program date-time, title)
+    dress = ["plain", "range", "range-cont", "disc", "key", "keynone", "map", "daterange", "pdt", "title", "unknown"]
+    for _ in range(ctx.n(2500, 50000)):
+        t = rng.choice([1, 2, 10, 30])
+        e = rng.choice([None, None, 0, 1])
+        bound = t + (e or 0)
+        n = rng.randint(1, 5)
+        durs = [rng.randint(0, bound * NS + 499999999) for _ in range(n)]
+        hot = rng.randrange(n)
+        durs[hot] = bound * NS + rng.choice(deltas[:11])
+        lines = ["#EXTM3U", "#EXT-X-TARGETDURATION:%d" % t]
+        prev_ranged = False
+        for i, d in enumerate(durs):
+            kind = rng.choice(dress)
+            uri = "s%d.ts" % i
+            if kind == "range-cont" and not prev_ranged:
+                kind = "range"
+            if kind == "range-cont":
+                uri = "r.ts"; lines.append("#EXT-X-BYTERANGE:%d" % rng.randint(1, 1000))
+            elif kind == "range":
+                uri = "r.ts"; lines.append("#EXT-X-BYTERANGE:%d@%d" % (rng.randint(1, 1000), rng.randint(0, 1000)))
+            elif kind == "disc": lines.append("#EXT-X-DISCONTINUITY")
+            elif kind == "key": lines.append('#EXT-X-KEY:METHOD=AES-128,URI="k%d"' % i)
+            elif kind == "keynone": lines.append("#EXT-X-KEY:METHOD=NONE")
+            elif kind == "map": lines.append('#EXT-X-MAP:URI="init%d"' % i)
+            elif kind == "daterange": lines.append('#EXT-X-DATERANGE:ID="d%d",START-DATE="2010-02-19T14:54:23.031+08:00"' % i)
+            elif kind == "pdt": lines.append("#EXT-X-PROGRAM-DATE-TIME:2010-02-19T14:54:23.031+08:00")
+            elif kind == "unknown": lines.append("#EXT-X-FOO:%d" % i)
+            prev_ranged = kind in ("range", "range-cont")
+            lines.append("#EXTINF:%s,%s" % (dec9(max(0, d)), "t" if kind == "title" else ""))
+            lines.append(uri)
+        if rng.random() < 0.3: lines.append("#EXT-X-ENDLIST")
+        cases.append(mk("media_builder", "\n".join(lines) + "\n", "-" if e is None else str(e * NS), group="text-dressed",
+                        meta={"durs": [max(0, d) for d in durs], "t": t * NS, "e": None if e is None else e * NS}))
     return cases
 
 
